@@ -301,6 +301,20 @@ pub fn gen_cfg(prop: &str, seed: u64) -> RunCfg {
             if g.rng.pct(3) {
                 ops.extend(deep_chain(&mut g, &mut world, 0));
             }
+            if spec.has_ovl() && g.rng.pct(25) {
+                // wrong-typed removals of pre-populated non-empty directories first (they must fail
+                // and change nothing, whichever layers hold the directory and its children)
+                let dirs: Vec<String> = world.m[0].t.iter().filter(|(k, v)| !k.is_empty() && matches!(v, Node::Dir) && !world.m[0].children(k).is_empty()).map(|(k, _)| k.clone()).collect();
+                for _ in 0..g.rng.range(1, 3) {
+                    if !dirs.is_empty() {
+                        let op = Op::RemoveFile(P::new(&dirs[g.rng.below(dirs.len())]));
+                        if matches!(world.clone().apply(&op), Want::Err(_)) {
+                            world.apply(&op);
+                            ops.push(op);
+                        }
+                    }
+                }
+            }
             ops.extend(gen_history(&mut g, &mut world, n, &w));
             base_cfg(prop, "unrestricted", seed, &mut g, vec![spec], ops)
         }
